@@ -117,6 +117,8 @@ pub proof fn lemma_get_preserves_observations(v0: CView, now: u64, k: Seq<u8>, r
 }
 
 // ---- memory_store/store.rs -----------------------------------------------------------------------
+//@consts memory_store/store.rs | -
+//@consts cache/cache.rs | -
 //@fields memory_store/store.rs | struct MemoryStore | memory,timer,cas_id
 pub struct MemoryStore {
     pub memory: Storage,      // R4: DashMap<KeyType, Record> stand-in
@@ -344,7 +346,7 @@ pub mod store {
             mc_inv(*old(self)), mc_room(*old(self)),
         ensures
             mc_frame(*old(self), *final(self)), // @ob C06 memc.append.frame
-            post_concat(false, old(self).store.memory@, old(self).store.cas_id.val(), mc_now(*old(self)), key@, new_record, r, final(self).store.memory@, final(self).store.cas_id.val()), // @ob C06,C05,C02 memc.append.post_concat
+            post_concat(false, old(self).store.memory@, old(self).store.cas_id.val(), mc_now(*old(self)), key@, new_record, r, final(self).store.memory@, final(self).store.cas_id.val()), // @ob C06,C05,C02,C01 memc.append.post_concat
 //@endfn
 
 //@fn memcache/store.rs | impl MemcStore | prepend | ret=r | mutself | safety=C10,C06
@@ -352,7 +354,7 @@ pub mod store {
             mc_inv(*old(self)), mc_room(*old(self)),
         ensures
             mc_frame(*old(self), *final(self)), // @ob C06 memc.prepend.frame
-            post_concat(true, old(self).store.memory@, old(self).store.cas_id.val(), mc_now(*old(self)), key@, new_record, r, final(self).store.memory@, final(self).store.cas_id.val()), // @ob C06,C05,C02 memc.prepend.post_concat
+            post_concat(true, old(self).store.memory@, old(self).store.cas_id.val(), mc_now(*old(self)), key@, new_record, r, final(self).store.memory@, final(self).store.cas_id.val()), // @ob C06,C05,C02,C01 memc.prepend.post_concat
 //@endfn
 
 
@@ -678,7 +680,7 @@ pub mod binary_connection {
                 proof { lemma_rf_exit_eof(p0, w0, limit); }
 //@endfn
 
-//@fn protocol/binary_connection.rs | impl MemcacheBinaryConnection | skip_bytes | ret=r | async | safety=C10,C13
+//@fn protocol/binary_connection.rs | impl MemcacheBinaryConnection | skip_bytes | ret=r | async | safety=C10,C13,C09
         requires
             !old(self).stream.shut(),
         ensures
@@ -830,6 +832,7 @@ pub mod random_policy {
     use super::*;
     use super::atomic;
 
+//@consts memcache/random_policy.rs | -
 //@fields memcache/random_policy.rs | struct RandomPolicy | store,memory_limit,memory_usage
     pub struct RandomPolicy {
         pub store: MemoryStore,                 // R4: Arc<dyn Cache + Send + Sync>, instantiated as builder.rs does for policy Random
@@ -976,6 +979,7 @@ pub mod memc_tcp {
     use super::*;
     use super::client_handler;
     use super::store as storage;
+//@consts memcache_server/memc_tcp.rs | -
 //@items memcache_server/memc_tcp.rs | struct MemcacheServerConfig
 
     impl MemcacheServerConfig {
@@ -1005,6 +1009,7 @@ pub mod memc_tcp {
 pub mod timer {
     use vstd::prelude::*;
     use super::*;
+//@consts server/timer.rs | -
 //@fields server/timer.rs | struct SystemTimer | seconds
     pub struct SystemTimer {
         pub seconds: AtomicU64,
